@@ -186,7 +186,7 @@ def wrap(v, cf, cinv):
 
 
 def planted(rng, pname, cell_kind, copies, atol=0.05, ndecoy=0, perturb_div=8.0, tight=False, mirror_copies=0,
-            decoy_kinds=("mirror", "nearmiss", "distractor"), max_tries=12, validate=True):
+            decoy_kinds=("mirror", "nearmiss", "distractor"), max_tries=12, validate=True, cell=None):
     """A periodic structure with planted copies of pattern `pname`.
 
     copies : list of (pose, frac) — pose in POSES, frac = 3 fractional coordinates of the image of the pattern's
@@ -199,7 +199,7 @@ def planted(rng, pname, cell_kind, copies, atol=0.05, ndecoy=0, perturb_div=8.0,
     d = fl.diam(ppos)
     pf = [[float(x) for x in p] for p in ppos]
     for attempt in range(max_tries):
-        cf = _cell(rng, cell_kind, d, atol, tight)
+        cf = _cell(rng, cell_kind, d, atol, tight) if cell is None else np.array(cell, dtype=float)
         cinv = np.linalg.inv(cf)
         elems, pos, plant, kinds = [], [], [], []
 
@@ -280,7 +280,7 @@ def planted(rng, pname, cell_kind, copies, atol=0.05, ndecoy=0, perturb_div=8.0,
                     bond = np.array([float(src[k][c] - src[j][c]) for c in range(3)])
                     L = np.linalg.norm(bond)
                     s = rng.choice([1, -1]) if L > 6 * atol else 1
-                    step = Fraction(int(rng.uniform(3, 5) * atol * 1024), 1024)     # change of the k–j distance
+                    step = Fraction(int(rng.uniform(3, 5) * atol * 1048576), 1048576)     # change of the k–j distance
                     src[k] = [src[k][c] + Fraction(bond[c] / L).limit_denominator(10 ** 6) * step * s for c in range(3)]
                     if place(src, pel, "random", None, False) is not None:
                         kinds.append("decoy:nearmiss")
@@ -427,40 +427,67 @@ def replicate_indep(elems, pos, cell, dims):
     return out_e, out_p, (cell * np.array(dims, dtype=float).reshape(3, 1)).tolist()
 
 
-# ------------------------------------------------------------------ order-insensitive comparison of model and code
+# ------------------------------------------------------------------ hints
 
-def _canon_view(near, groups, matches):
-    gs = sorted(sorted([[int(x) for x in t], i in set(g_["good"])] for i, t in enumerate(g_["tuples"])) for g_ in groups)
-    ms = None if matches is None else sorted(matches, key=lambda mm: [int(x) for x in mm["idx"]])
-    return {"near": near, "groups": gs, "matches": ms}
+def valid_hints(ppos, min_off=0.3):
+    """all hint triples (None or index each) whose given axis points are distinct points and whose given orientation
+    point lies off the axis that will be used (for a single given axis point: off the line to EVERY farthest point)"""
+    P = np.array(ppos, dtype=float)
+    n = len(P)
+    d2 = ((P[:, None, :] - P[None, :, :]) ** 2).sum(axis=2)
+    opts = [None] + list(range(n))
+    out = []
+    for h1, h2, ho in itertools.product(opts, opts, opts):
+        if n <= 2 and ho is not None:
+            continue
+        if h1 is not None and h2 is not None:
+            if d2[h1, h2] < 0.25:
+                continue
+            axes = [(h1, h2)]
+        elif h1 is None and h2 is None:
+            mx = d2.max()
+            axes = [(i, j) for i in range(n) for j in range(n) if d2[i, j] >= mx - 1e-9]
+        else:
+            a = h1 if h1 is not None else h2
+            mx = d2[a].max()
+            if mx < 0.25:
+                continue
+            axes = [(a, j) for j in range(n) if d2[a, j] >= mx - 1e-9]
+        if ho is not None:
+            ok = True
+            for a, b in axes:
+                u = P[b] - P[a]
+                w = P[ho] - P[a]
+                off = np.linalg.norm(np.cross(u, w)) / max(np.linalg.norm(u), 1e-12)
+                if ho in (a, b) or off < min_off:
+                    ok = False
+            if not ok:
+                continue
+        out.append((h1, h2, ho))
+    return out
 
 
-def canonical_tie(lean, op, res, m):
-    """The ORDER in which candidate tuples are enumerated (it follows a lexicographic sort of float coordinates; two
-    image atoms whose x coordinates coincide exactly in the model can differ by one ulp in the code, e.g. exact
-    axis-aligned copies in a rotated cell) is not constrained by any property, but the line protocol indexes the
-    rotation oracle by (group number, tuple number).  When the plain comparison fails, the oracle table is re-keyed by
-    TUPLE to the model's own enumeration order, the model is run again, and the two sides are compared as sets:
-    near list, {group: {tuple: passes the re-check}}, reported matches (the model is told to pick the tuple the code
-    picked whenever the model also accepts it).  Returns (canonical impl view, canonical model view)."""
-    from . import core
-    hook = res["hook"]
-    quat_of = {}
-    for g_ in hook.groups:
-        for t, qq in zip(g_["tuples"], g_["quats"]):
-            quat_of[tuple(int(x) for x in t)] = [core.q(x) for x in qq]
-    chosen = set(tuple(int(x) for x in t) for t in (hook.find["chosen"] if hook.find else []))
-    oracle = [[quat_of.get(tuple(t), ["0", "0", "0", "1"]) for t in g_["tuples"]] for g_ in m.get("groups", [])]
-    op2 = dict(op, oracle=oracle, choose=[0] * len(oracle))
-    m2 = lean.run([op2])[0]
-    choose = []
-    for g_ in m2.get("groups", []):
-        pick = 0
-        for k, gi in enumerate(g_["good"]):
-            if tuple(g_["tuples"][gi]) in chosen:
-                pick = k
-        choose.append(pick)
-    m3 = lean.run([dict(op2, choose=choose)])[0]
-    iv = fl.impl_view(res)
-    return (_canon_view(iv["near"], iv["groups"], iv["matches"]),
-            _canon_view(m3.get("near"), m3.get("groups", []), m3.get("matches")))
+def pick_hints(rng, ppos):
+    """a random valid hint triple, biased towards triples that contain index 0 and towards complete triples"""
+    hs = [h for h in valid_hints(ppos) if h != (None, None, None)]
+    if not hs:
+        return (None, None, None)
+    r = rng.random()
+    pool = hs
+    if r < 0.4:
+        pool = [h for h in hs if 0 in h[:2]] or hs                  # index 0 among the axis atoms
+    elif r < 0.6:
+        pool = [h for h in hs if None not in h] or hs               # all three given
+    elif r < 0.75:
+        pool = [h for h in hs if h.count(None) == 2] or hs          # a single hint
+    return rng.choice(pool)
+
+
+def tilted_twin(rng, cell):
+    """a triclinic cell with the SAME diagonal as the orthorhombic `cell` (lower-triangular tilts added)"""
+    cf = np.array(cell, dtype=float).copy()
+    t = lambda: rng.choice([1, -1]) * rng.randint(2, 12) / 8.0
+    cf[1][0] = t()
+    cf[2][0] = t()
+    cf[2][1] = t()
+    return cf
